@@ -15,6 +15,7 @@ import (
 
 type reader struct {
 	conn              transport.Conn
+	buf               *bufio.Reader
 	connect           chan interface{}
 	onConnectionClose signalConnectionClose
 	processIncoming   signalIncoming
@@ -66,7 +67,9 @@ func (s *reader) routine() {
 		s.onConnectionClose(err)
 	}()
 
-	buf := bufio.NewReader(s.conn)
+	// the buffered reader is shared with connectionRoutine: bytes following CONNECT in the same
+	// network read are already buffered there and must not be lost
+	buf := s.buf
 
 	for {
 		var pkt mqttp.IFace
@@ -98,7 +101,7 @@ func (s *reader) connectionRoutine() {
 		}
 	}
 
-	buf := bufio.NewReader(s.conn)
+	buf := s.buf
 
 	pkt, err := s.readPacket(buf)
 	if err == nil {
